@@ -1,8 +1,81 @@
 import RisorModel.Util
-/-! Line-protocol front end of the C09 model (stub until the model exists). -/
+import RisorModel.C09.Model
+/-!
+Line-protocol front end of the C09 model (requests after the leading `C09` field).
+
+  table                                   → every reviewed site: loc|fn|w|init|lock,x,po+…  joined by `;`
+  pair  locA fnA wA locB fnB wB           → ordered | racy <finding or -> | unknown-site
+  vm    nGlobals nThreads prog sched      → ok <alone globals> <t:globals|…>   (Impl VM model)
+        prog  = stmt;stmt;…   stmt = target=tokens   tokens (prefix): L<n> G<i> A e e  C<ty> e  I<m>
+        sched = t,t,t,…
+-/
 namespace Risor.C09
+open Risor.Util
+
+def b2s (b : Bool) : String := if b then "1" else "0"
+
+def showSite (s : Site) : String :=
+  s.loc ++ "|" ++ s.fn ++ "|" ++ b2s s.write ++ "|" ++ b2s s.init ++ "|" ++ b2s (concurrent s) ++ "|"
+    ++ (if s.locks.isEmpty then "-" else "+".intercalate (s.locks.map fun q => q.name ++ "," ++ b2s q.excl ++ "," ++ b2s q.perObj))
+
+def findSite (loc fn : String) (w : Bool) : Option Site :=
+  match implSites.find? (fun s => s.loc == loc && s.fn == fn && s.write == w) with
+  | some s => some s
+  | none =>
+    -- a function that only reads a location never written after initialisation
+    if w then none else implSites.find? (fun s => s.loc == loc && s.fn == "<readers>")
+
+def parseE : Nat → List String → Option (Expr × List String)
+  | 0, _ => none
+  | _ + 1, [] => none
+  | fuel + 1, tok :: rest =>
+    match tok.toList with
+    | 'L' :: ds => (String.ofList ds).toNat?.map fun n => (Expr.lit n, rest)
+    | 'G' :: ds => (String.ofList ds).toNat?.map fun n => (Expr.glob n, rest)
+    | 'I' :: ds => (String.ofList ds).toNat?.map fun n => (Expr.imp n, rest)
+    | 'C' :: ds =>
+      match (String.ofList ds).toNat?, parseE fuel rest with
+      | some ty, some (e, r) => some (Expr.conv ty e, r)
+      | _, _ => none
+    | ['A'] =>
+      match parseE fuel rest with
+      | some (a, r1) =>
+        match parseE fuel r1 with
+        | some (b, r2) => some (Expr.add a b, r2)
+        | none => none
+      | none => none
+    | _ => none
+
+def parseStmt (s : String) : Option Stmt :=
+  match s.splitOn "=" with
+  | [t, e] =>
+    let toks := (e.splitOn " ").filter (· ≠ "")
+    match t.toNat?, parseE (toks.length + 1) toks with
+    | some t, some (ex, []) => some ⟨t, ex⟩
+    | _, _ => none
+  | _ => none
+
+def showNats (xs : List Nat) : String :=
+  if xs.isEmpty then "-" else ",".intercalate (xs.map toString)
 
 def handle : List String → String
-  | _ => "error\tnot-implemented"
+  | ["table"] => ";".intercalate (implSites.map showSite)
+  | ["pair", la, fa, wa, lb, fb, wb] =>
+    match findSite la fa (wa == "1"), findSite lb fb (wb == "1") with
+    | some a, some b =>
+      if pairOK a b then "ordered"
+      else "racy\t" ++ (let f := findingOf a b; if f == "" then "-" else f)
+    | _, _ => "unknown-site"
+  | ["vm", ng, nt, prog, sched] =>
+    match ng.toNat?, nt.toNat?, (prog.splitOn ";").mapM parseStmt,
+        (if sched == "-" then some [] else (sched.splitOn ",").mapM (·.toNat?)) with
+    | some ng, some nt, some code, some sched =>
+      let sh : Shared := { code := code, convCache := [], modCache := [] }
+      let pool : Nat → VM := fun _ => load sh ng
+      let fin := (runSched sh pool sched).2
+      "ok\t" ++ showNats (aloneResult code ng) ++ "\t"
+        ++ "|".intercalate ((List.range nt).map fun t => toString t ++ ":" ++ showNats (fin t).globals)
+    | _, _, _, _ => "error\tbad-vm-request"
+  | _ => "error\tunknown-request"
 
 end Risor.C09
